@@ -17,6 +17,11 @@ func (x *Exec) useIntrinsic(name string) { x.v.noteIntrinsic(x.shortFn(x.fn), na
 
 func (x *Exec) intrinsic(st *State, name string, args []Val, cc *ssa.CallCommon, pos token.Pos) (Val, bool) {
 	I := types.Typ[types.Int]
+	if strings.HasSuffix(name, ".init") && len(args) == 0 {
+		// initialisers of imported packages: no effect on this package's state
+		x.useIntrinsic("package initialisers of imported packages (no effect on gkvlite's state)")
+		return Val{K: VNone}, true
+	}
 	switch name {
 	case "sync/atomic.LoadInt64", "sync/atomic.LoadUint64":
 		x.useIntrinsic(name)
